@@ -41,7 +41,7 @@ ASSUMPTIONS = [
 ]
 BOUNDS = {
     "quick": {"max_depth": "S: 9 (1 dir) / 6 (2 dirs); L: 8 (2 uris) / 6 (3 uris)", "versions": "A,B,broken", "time_budget_s": 60},
-    "thorough": {"max_depth": "S: 14/9/7 for 1/2/3 dirs; L: 12..6 for 2..7 uris", "versions": "A,B,broken,unreadable", "time_budget_s": 1500},
+    "thorough": {"max_depth": "S: 14/9/7 for 1/2/3 dirs; L: 12..6 for 2..7 uris", "versions": "A,B,broken,unreadable", "time_budget_s": 780},
 }
 READY = True
 
